@@ -182,6 +182,20 @@ class PathEnum:
             guard += 1
         return pl
 
+    def can_return(self):
+        if getattr(self, '_can_ret', None) is None:
+            fn = self.fn
+            can = set()
+            st = list(fn.return_blocks())
+            while st:
+                b = st.pop()
+                if b in can:
+                    continue
+                can.add(b)
+                st.extend(fn.pred(b))
+            self._can_ret = can
+        return self._can_ret
+
     def paths(self, is_target, start=0, init=None, stop=None):
         """DNF: list of (frozenset(atoms), target node's block) for acyclic paths start -> target.
         is_target(block, state_before_terminator) ; the path ends at the first target met."""
@@ -203,12 +217,18 @@ class PathEnum:
             if stop and stop(b, pre):
                 return
             succ = list(it.succ_states(pre, b))
-            nsucc = len({sb for sb, _, _ in succ})
-            for sb, s2, _ in succ:
+            # a branch whose other side can only diverge (assert!/panic!/unreachable!) is not a decision:
+            # count only successors from which some `return` is reachable
+            live = self.can_return()
+            nsucc = len({sb for sb, _, _ in succ if sb in live})
+            for sb, s2, lab in succ:
                 if sb in onpath:
                     continue
                 a = self.atom_for(b, sb, nsucc)
-                dfs(sb, s2, atoms + ([a] if a else []), onpath | {sb})
+                extra = [a] if a else []
+                if lab is not None:
+                    extra.append(('is', '<input>', lab))
+                dfs(sb, s2, atoms + extra, onpath | {sb})
         dfs(start, dict(init or {}), [], {start})
         return out
 
